@@ -184,6 +184,11 @@ def evalLine (line : String) : String :=
       (if c.refused then "refused" else "ok") ++ " acao=" ++ (match c.acao with | some a => hex a | none => "-") ++
         " vary=" ++ b2s c.vary ++ " ws=" ++ (if mode == "http" then "skip" else b2s (wsOriginOK osb ob))
     | _, _ => "bad-op"
+  | ["wsauth", st] =>
+    -- upgrade with header authentication: only a direct status of the auth answer refuses it
+    match st.toInt? with
+    | some n => if isDirectStatus (some n) then s!"refused {n}" else "upgrade"
+    | none => "upgrade"
   | ["lower", h] =>
     match unhex h with
     | some b => hex (toLowerASCII b)
